@@ -448,6 +448,17 @@ pub fn stages(ctx: &Ctx) -> Vec<Stage> {
             cfg.dt_max *= f;
             cfg.t1 = cfg.t0 + cfg.dt_max * rng.log10(0.3, 1.7);
         }
+        if rng.chance(0.15) {
+            cfg.dt_min = cfg.dt_max * rng.r(0.05, 0.4);
+        }
+        if solver.is_rk() && rng.chance(0.15) {
+            // the interval is about one (far too large) trial step long: the clipped final step is
+            // then a proposal the estimator must reject, not take untested
+            cfg.dt_max *= rng.r(4.0, 20.0);
+            cfg.dt_min = cfg.dt_max * 1e-7;
+            cfg.t1 = cfg.t0 + cfg.dt0() * rng.r(0.3, 1.5);
+            rep.count(&format!("{}/short_interval_large_trial_cases", solver.name()), 1);
+        }
         let mode = if rng.bool() { DimMode::Static } else { DimMode::Dynamic };
         run_case(rep, solver, &prob, &cfg, mode);
     }));
